@@ -106,7 +106,7 @@ func rootState(l *lexer) stateFn {
 		l.emit(LeftAngleBracket)
 	case r == '>':
 		l.emit(RightAngleBracket)
-	case unicode.IsDigit(r):
+	case r >= '0' && r <= '9':
 		l.backup()
 		l.acceptRun("0123456789")
 		l.emit(Number)
